@@ -39,7 +39,7 @@ def errStr : Err → String
   | .wc => "wc" | .ke => "ke" | .dl => "dl" | .to => "to" | .other => "other"
 
 def resStr : Res → String
-  | .ok => "ok" | .panic => "panic" | .closed => "closed"
+  | .ok => "ok" | .panic => "refused" | .closed => "closed"
   | .errStore e => s!"err:{errStr e}"
   | .errKeyExists => "err:ke"
   | .errLoieNoRV => "err:loie-norv"
@@ -104,17 +104,60 @@ def leakStr (s : State) : String :=
   let l := leaked s
   if l.isEmpty then "ok" else s!"FAIL leak {idsStr l}"
 
+/-- per run: how the explored cases lie relative to the proved fragment (Proofs/AggLock.lean) -/
+structure Tally where
+  cases : Nat := 0
+  admissible : Nat := 0
+  lockOps : Nat := 0
+  /-- observed answers that violate the store contract the theorems assume (`wfLock`), with the first few op lines -/
+  wfViolations : Nat := 0
+  wfLines : List String := []
+  exLoie : Nat := 0
+  exFail : Nat := 0
+  exPending : Nat := 0
+  /-- `chk-noleak` on the model: failures inside / outside the admissible fragment (inside must stay 0: theorem) -/
+  leakChecks : Nat := 0
+  leaksInside : Nat := 0
+  leaksOutside : Nat := 0
+
 structure D where
   s : State := {}
   started : Bool := false
+  /-- the ops of the current case so far are all `okStep` -/
+  adm : Bool := true
+  t : Tally := {}
+
+def closeCase (d : D) : Tally :=
+  if d.started then { d.t with cases := d.t.cases + 1, admissible := d.t.admissible + (if d.adm then 1 else 0) } else d.t
+
+def noteOp (d : D) (op : Op) : D :=
+  if d.s.closed then d else
+  let t := d.t
+  match op with
+  | .lock i =>
+    let t := { t with lockOps := t.lockOps + 1 }
+    let bad := !wfLock i
+    let t := if bad then { t with wfViolations := t.wfViolations + 1 } else t
+    let ex := excludedLock d.s i
+    let t := if ex then (if i.err.isNone then { t with exLoie := t.exLoie + 1 } else { t with exFail := t.exFail + 1 }) else t
+    { d with t := t, adm := d.adm && !bad && !ex }
+  | .rollback | .commit =>
+    if endOk d.s then d else { d with t := { t with exPending := t.exPending + 1 }, adm := false }
+  | _ => d
 
 def stepLine (d : D) (line : String) : D × String :=
   let ws := words line
   match ws with
-  | "reset" :: _ => ({ s := init, started := true }, "ok")
+  | "reset" :: _ => ({ s := init, started := true, adm := true, t := closeCase d }, "ok")
   | _ =>
   if !d.started then (d, "bad-op") else
-  let go (op : Op) : D × String := let s' := step d.s op; ({ d with s := s' }, stateStr s')
+  let go (op : Op) : D × String :=
+    let d := noteOp d op
+    let d := match op with
+      | .lock i => if !wfLock i && d.t.wfLines.length < 5 then { d with t := { d.t with wfLines := d.t.wfLines ++ [line] } } else d
+      | _ => d
+    let s' := step d.s op
+    ({ d with s := s' }, stateStr s')
   match ws with
   | ["start"] => go .start
   | ["retry"] => go .retry
@@ -130,7 +173,40 @@ def stepLine (d : D) (line : String) : D × String :=
   | ["orel"] => (d, "env")
   | ["age"] => (d, "env")
   | ["ts"] => (d, "env")
-  | ["chk-noleak"] => (d, leakStr d.s)
+  | ["chk-noleak"] =>
+    let o := leakStr d.s
+    let bad := o != "ok"
+    let t := { d.t with leakChecks := d.t.leakChecks + 1,
+                        leaksInside := d.t.leaksInside + (if bad && d.adm then 1 else 0),
+                        leaksOutside := d.t.leaksOutside + (if bad && !d.adm then 1 else 0) }
+    ({ d with t := t }, o)
   | _ => (d, "bad-op")
 
-def main : IO Unit := runDriver ({} : D) stepLine
+partial def loop (h out : IO.FS.Stream) (d : D) : IO D := do
+  let line ← h.getLine
+  if line.isEmpty then
+    out.flush
+    return d
+  let l := (line.trimAscii).toString
+  if l.isEmpty || l.startsWith "#" then
+    out.putStrLn l
+    loop h out d
+  else
+    let (d', o) := stepLine d l
+    out.putStrLn o
+    loop h out d'
+
+def jsonStr (s : String) : String := "\"" ++ (s.replace "\\" "\\\\").replace "\"" "\\\"" ++ "\""
+
+/-- `cgv-c06agg [--stats <file>]` -/
+def main (args : List String) : IO Unit := do
+  let d ← loop (← IO.getStdin) (← IO.getStdout) ({} : D)
+  let t := closeCase d
+  match args with
+  | ["--stats", path] =>
+    IO.FS.writeFile path
+      ("{" ++ s!"\"cases\":{t.cases},\"cases_inside_proved_fragment\":{t.admissible},\"lock_ops\":{t.lockOps}," ++
+       s!"\"store_contract_violations\":{t.wfViolations},\"store_contract_violation_lines\":[{",".intercalate (t.wfLines.map jsonStr)}]," ++
+       s!"\"excluded_steps_loie_not_found\":{t.exLoie},\"excluded_steps_relock_wc_ke\":{t.exFail},\"excluded_steps_end_inside_stage\":{t.exPending}," ++
+       s!"\"chk_noleak\":{t.leakChecks},\"model_leaks_inside_fragment\":{t.leaksInside},\"model_leaks_outside_fragment\":{t.leaksOutside}" ++ "}\n")
+  | _ => pure ()
